@@ -187,6 +187,20 @@ func ruleHash(state *core.BuildState, target *core.BuildTarget, runtime bool) []
 	for _, secret := range target.Secrets {
 		hashString(h, secret)
 	}
+	hashNamedGroups(h, target.NamedSecrets)
+	// The contents of tools are part of the source hash, but which tools are used (including
+	// system tools, which have no content we track) and how they are grouped is part of the rule.
+	hashInt(h, len(target.Tools))
+	for _, tool := range target.AllTools() {
+		hashString(h, tool.String())
+	}
+	for _, name := range target.ToolNames() {
+		hashString(h, name)
+		hashInt(h, len(target.NamedTools(name)))
+	}
+	// Similarly the names of named source groups select which environment variables the action sees.
+	hashInt(h, len(target.Sources))
+	hashGroupNames(h, target.NamedSources)
 	hashBool(h, target.IsBinary)
 	hashOptionalBool(h, target.IsSubrepo)
 	hashOptionalBool(h, target.Sandbox)
@@ -248,6 +262,8 @@ func ruleHash(state *core.BuildState, target *core.BuildTarget, runtime bool) []
 		for _, datum := range target.AllData() {
 			hashString(h, datum.String())
 		}
+		hashInt(h, len(target.Data))
+		hashGroupNames(h, target.NamedData)
 		if target.IsTest() {
 			for _, output := range target.Test.Outputs {
 				hashString(h, output)
@@ -270,6 +286,36 @@ func hashMap(writer hash.Hash, eps map[string]string) {
 	for _, ep := range keys {
 		hashString(writer, ep)
 		hashString(writer, eps[ep])
+	}
+}
+
+// hashNamedGroups writes a map of named string lists to the hash in a canonical order.
+func hashNamedGroups(writer hash.Hash, groups map[string][]string) {
+	names := make([]string, 0, len(groups))
+	for name := range groups {
+		names = append(names, name)
+	}
+	sort.Strings(names)
+	for _, name := range names {
+		hashString(writer, name)
+		hashInt(writer, len(groups[name]))
+		for _, item := range groups[name] {
+			hashString(writer, item)
+		}
+	}
+}
+
+// hashGroupNames writes the names and sizes of a set of named input groups to the hash in a
+// canonical order. The inputs themselves are hashed in the same order via AllSources etc.
+func hashGroupNames(writer hash.Hash, groups map[string][]core.BuildInput) {
+	names := make([]string, 0, len(groups))
+	for name := range groups {
+		names = append(names, name)
+	}
+	sort.Strings(names)
+	for _, name := range names {
+		hashString(writer, name)
+		hashInt(writer, len(groups[name]))
 	}
 }
 
@@ -497,11 +543,12 @@ func PrintHashes(state *core.BuildState, target *core.BuildTarget) {
 
 // secretHash calculates a hash for any secrets of a target.
 func secretHash(state *core.BuildState, target *core.BuildTarget) ([]byte, error) {
-	if len(target.Secrets) == 0 {
+	secrets := target.AllSecrets()
+	if len(secrets) == 0 {
 		return noSecrets, nil
 	}
 	h := sha1.New()
-	for _, secret := range target.Secrets {
+	for _, secret := range secrets {
 		ph, err := state.PathHasher.Hash(fs.ExpandHomePath(secret), false, false, false)
 		if err != nil && os.IsNotExist(err) {
 			return noSecrets, nil // Not having the secrets is not an error yet.
